@@ -110,3 +110,10 @@ impl Adam {
         self.t = 0;
     }
 }
+
+#[cfg(nuts_rs_verif)]
+impl Adam {
+    pub fn verif_state(&self) -> ([f64; 4], u64) {
+        ([self.log_step, self.m, self.v, 0.0], self.t)
+    }
+}
